@@ -513,6 +513,40 @@ def r_associativity(mod, rep, R='R5.3'):
               'Functor(...) is also built from %s' % [[show(a)[:30] for a in f] for f in sorted(functor_forms - legal)])
 
 
+def r_atoms(mod, rep, R='R5.2'):
+    """what the reader pushes for `base[f]` is Atom(base, Feature.parse(f)) with f the text between the brackets, for a
+    bare token Atom(token): the feature an atom gets is the parsed text, on every path (a feature swapped for another
+    value under some test on it prints back as a different text)"""
+    pm = ParseWalk(mod)
+    n = 0
+    bad = []
+    for st, o in pm.paths:
+        if o == 'raise':
+            continue
+        for e in st.events:
+            if not (e[0] == 'call' and e[1][1][0] == 'attr' and e[1][1][2] == 'append' and e[1][1][1] == pm.stack and e[1][2]):
+                continue
+            v = e[1][2][0]
+            if not (v[0] == 'call' and v[1] == N('Atom')):
+                continue
+            n += 1
+            args = list(v[2]) + [val for k, val in v[3] if k is not None]
+            if len(args) >= 2:
+                f = args[1]
+                ok = f[0] == 'call' and f[1] == A(N('Feature'), 'parse') and len(f[2]) == 1 and not any(x[0] == 'const' for x in subterms(f[2][0]))
+                if not ok:
+                    conds = '; '.join('%s%s' % ('' if pol else 'not ', show(c)[:50]) for c, pol, _ in st.conds[-2:])
+                    bad.append('Atom(.., %s) under %s' % (show(f)[:50], conds))
+            base = args[0] if args else None
+            if base is not None and any(x[0] == 'const' for x in subterms(base)):
+                bad.append('Atom(%s, ..)' % show(base)[:50])
+    if not n:
+        raise AnalysisError('%s: Category.parse: no path pushes an Atom' % REL)
+    rep.check(not bad, R, '%s:%s Category.parse' % (REL, pm.fn.lineno), 'parse:atom-as-read',
+              'every atom pushed by the reader is Atom(<token>) or Atom(<token>, Feature.parse(<token>)) (%d pushes on the paths of one token)' % n,
+              'the reader builds an atom from something other than the text it read: %s -- the category prints back as a different text' % sorted(set(bad))[:2])
+
+
 def check(repo, rep, tier):
     mod = repo.module(REL)
     rep.rule('R5.1', 'delimiters emitted by printers are tokeniser delimiters; the reader handles every delimiter')
@@ -520,6 +554,7 @@ def check(repo, rep, tier):
     rep.rule('R5.3', 'associativity never guessed: exact pops per bracket, exactly three at the end, no folding loop')
     cls = r_delimiters(mod, rep)
     r_feature(mod, rep)
+    r_atoms(mod, rep)
     r_associativity(mod, rep)
     rep.rule('R5.4', 'every category string of the shipped model files is well-formed text (read by an independent reader of the same grammar)')
     from .c17 import r_data
